@@ -15,7 +15,7 @@ class TbfInteractionPrinter : public RealKernel {
     auto getBoxWidthsAtLevel(const long int inLevel) const{
         std::array<RealType, Dim> widths = spaceSystem.getConfiguration().getBoxWidths();
         for(RealType& width : widths){
-            width /= RealType(1<<inLevel);
+            width /= RealType(1L<<inLevel);
         }
         return widths;
     }
